@@ -253,7 +253,6 @@ Definition simple_of (state : N) : N := nth (N.to_nat state) booster_simple_tabl
 (* ------------------------------------------------------------------ faults and results *)
 Inductive sfault :=
 | SF_short (ty : N)            (* dispatcher reads a fixed offset past the message copy *)
-| SF_diag_overread             (* boost_diagnostic: diag_list[i + 1] with i the last index *)
 | SF_cs_state_string           (* bidib_cs_state_string_mapping[state], state >= table length *)
 | SF_multiple_bitmap           (* bm_multiple: data[i / 8] past the message copy *)
 | SF_vendor                    (* bidib_state_vendor: length bytes lead outside the message copy *)
@@ -476,8 +475,8 @@ Definition boost_state (c : cfg) (s : st) (a : naddr) (state : N) : st :=
   | None => s
   end.
 
-(* bidib_state_boost_diagnostic: `for (i = 0; i < length; i++) switch (diag_list[i])` reading diag_list[i + 1];
-   l is the list from position i on. The index advances by ONE, so a value byte is examined as a key too. *)
+(* bidib_state_boost_diagnostic: `for (i = 0; i + 1 < length; i += 2) switch (diag_list[i])` reading diag_list[i + 1]:
+   (key, value) pairs; an incomplete trailing pair is ignored *)
 Definition diag_apply (b : boost) (key v : N) : boost :=
   if key =? 0 then {| bo_ps := bo_ps b; bo_simple := bo_simple b; bo_pw := power_of_code (bo_pw b) v; bo_vk := bo_vk b; bo_v := bo_v b; bo_tk := bo_tk b; bo_t := bo_t b |}
   else if key =? 1 then
@@ -485,31 +484,15 @@ Definition diag_apply (b : boost) (key v : N) : boost :=
      else {| bo_ps := bo_ps b; bo_simple := bo_simple b; bo_pw := bo_pw b; bo_vk := false; bo_v := bo_v b; bo_tk := bo_tk b; bo_t := bo_t b |})
   else if key =? 2 then {| bo_ps := bo_ps b; bo_simple := bo_simple b; bo_pw := bo_pw b; bo_vk := bo_vk b; bo_v := bo_v b; bo_tk := true; bo_t := v |}
   else b.
-Definition is_diag_key (k : N) : bool := k <? 3.
-Fixpoint diag_loop (l : list N) (b : boost) : sfault + boost :=
+Fixpoint diag_loop (l : list N) (b : boost) : boost :=
   match l with
-  | [] => inr b
-  | k :: r =>
-      if is_diag_key k then
-        match r with
-        | [] => inl SF_diag_overread
-        | v :: _ => diag_loop r (diag_apply b k v)
-        end
-      else diag_loop r b
+  | k :: v :: r => diag_loop r (diag_apply b k v)
+  | _ => b
   end.
-Definition boost_diagnostic (c : cfg) (s : st) (a : naddr) (l : list N) : res :=
+Definition boost_diagnostic (c : cfg) (s : st) (a : naddr) (l : list N) : st :=
   match board_by_addr c s a with
-  | Some (i, bc) =>
-      if is_booster bc then
-        match nth_error (s_boost s) i with
-        | Some b => match diag_loop l b with
-                    | inr b' => Ok (set_boost s (upd_nth i (fun _ => b') (s_boost s)))
-                    | inl f => Fault f
-                    end
-        | None => Ok s
-        end
-      else Ok s
-  | None => Ok s
+  | Some (i, bc) => if is_booster bc then set_boost s (upd_nth i (diag_loop l) (s_boost s)) else s
+  | None => s
   end.
 
 Definition cs_state (c : cfg) (s : st) (a : naddr) (state : N) : res :=
@@ -611,7 +594,7 @@ Definition handle (c : cfg) (s : st) (a : naddr) (ty : N) (data : list N) : res 
     match data with l :: h :: sl :: sh :: _ => Ok (bm_speed c s l h sl sh) | _ => Fault (SF_short ty) end
   else if ty =? MSG_BM_DYN_STATE then
     match data with _ :: l :: h :: d :: v :: _ => Ok (bm_dyn_state c s l h d v) | _ => Fault (SF_short ty) end
-  else if ty =? MSG_BOOST_DIAGNOSTIC then boost_diagnostic c s a data
+  else if ty =? MSG_BOOST_DIAGNOSTIC then Ok (boost_diagnostic c s a data)
   else if (ty =? MSG_ACCESSORY_STATE) || (ty =? MSG_ACCESSORY_NOTIFY) then
     match data with n :: asp :: _ :: ex :: w :: _ => accessory_state c s a n asp ex w | _ => Fault (SF_short ty) end
   else if ty =? MSG_BOOST_STAT then
